@@ -147,7 +147,7 @@ def concretise(rng, net, op, state):
         return {"op": "print_contractions"}
     if name == "sort":
         return {"op": "sort_contraction_indices", "priority": rng.choice(["flops", "size", "root", "leaves"]),
-                "oc": rng.random() < 0.6, "cc": rng.random() < 0.6}
+                "oc": rng.random() < 0.6, "cc": rng.random() < 0.6, "reset": rng.random() < 0.5}
     if name == "reset":
         return {"op": "reset_contraction_indices"}
     if name == "copy":
@@ -244,7 +244,7 @@ def apply_op(ct, net, tree, cop, arrays, side):
             tree.print_contractions()
     elif name == "sort_contraction_indices":
         tree.sort_contraction_indices(priority=cop["priority"], make_output_contig=cop["oc"],
-                                      make_contracted_contig=cop["cc"])
+                                      make_contracted_contig=cop["cc"], reset=cop.get("reset", True))
     elif name == "reset_contraction_indices":
         tree.reset_contraction_indices()
     elif name == "copy":
